@@ -426,12 +426,15 @@ func (a Int) M__truediv__(other Object) (Object, error) {
 	if b, ok := other.(*BigInt); ok {
 		return bigIntTrueDiv(big.NewInt(int64(a)), (*big.Int)(b))
 	}
-	b, err := MakeFloat(other)
+	fb, ok, err := floatOperand(other)
 	if err != nil {
 		return nil, err
 	}
+	if !ok {
+		// not a real number: let the other operand do the division
+		return NotImplemented, nil
+	}
 	fa := Float(a)
-	fb := b.(Float)
 	if fb == 0 {
 		return nil, divisionByZero
 	}
@@ -445,12 +448,15 @@ func (a Int) M__rtruediv__(other Object) (Object, error) {
 	if b, ok := other.(*BigInt); ok {
 		return bigIntTrueDiv((*big.Int)(b), big.NewInt(int64(a)))
 	}
-	b, err := MakeFloat(other)
+	fb, ok, err := floatOperand(other)
 	if err != nil {
 		return nil, err
 	}
+	if !ok {
+		// not a real number: let the other operand do the division
+		return NotImplemented, nil
+	}
 	fa := Float(a)
-	fb := b.(Float)
 	if fa == 0 {
 		return nil, divisionByZero
 	}
